@@ -75,3 +75,91 @@ Theorem C04_fixed_roundtrip : forall o u,
   w = local (fixed_zone o) u /\ f = fold_spec (fixed_zone o) u.
 Proof. exact fixed_roundtrip_lemma. Qed.
 Print Assumptions C04_fixed_roundtrip.
+From V Require Import tzfile.TzGenLib gen.TzGen tzfile.TzGenThm tzfile.TzGenericModel tzfile.TzBeforeThm.
+
+(* ---- regenerated model = hand model (coq/gen/TzGen.v is re-translated from /repo on every run) ---- *)
+Theorem C04_gen_find_last_transition : forall d dt b, gen_find_last_transition d dt b = find_last d (fst dt) b.
+Proof. exact gen_find_last_transition_lemma. Qed.
+Print Assumptions C04_gen_find_last_transition.
+
+Theorem C04_gen_get_ttinfo : forall d idx, shape d -> gen_get_ttinfo d idx = Ok (get_ttinfo d idx).
+Proof. exact gen_get_ttinfo_lemma. Qed.
+Print Assumptions C04_gen_get_ttinfo.
+
+Theorem C04_gen_is_ambiguous : forall d dt idx, shape d -> (forall i, idx = Some i -> i < len (d_wall d)) ->
+  gen_is_ambiguous d dt idx = is_ambiguous d (fst dt) idx.
+Proof. exact gen_is_ambiguous_lemma. Qed.
+Print Assumptions C04_gen_is_ambiguous.
+
+Theorem C04_gen_resolve_ambiguous_time : forall d dt, shape d ->
+  gen_resolve_ambiguous_time d dt = resolve_idx d (fst dt) (snd dt).
+Proof. exact gen_resolve_ambiguous_time_lemma. Qed.
+Print Assumptions C04_gen_resolve_ambiguous_time.
+
+Theorem C04_gen_find_ttinfo : forall d dt, shape d -> gen_find_ttinfo d dt = find_ttinfo d (fst dt) (snd dt).
+Proof. exact gen_find_ttinfo_lemma. Qed.
+Print Assumptions C04_gen_find_ttinfo.
+
+Theorem C04_gen_fromutc : forall d dt, shape d -> gen_fromutc d dt = fromutc d (fst dt).
+Proof. exact gen_fromutc_lemma. Qed.
+Print Assumptions C04_gen_fromutc.
+
+Theorem C04_gen_utcoffset : forall d dt, shape d -> gen_utcoffset d dt = utcoffset d (fst dt) (snd dt).
+Proof. exact gen_utcoffset_lemma. Qed.
+Print Assumptions C04_gen_utcoffset.
+
+Theorem C04_gen_dst : forall d dt, shape d -> gen_dst d dt = dst d (fst dt) (snd dt).
+Proof. exact gen_dst_lemma. Qed.
+Print Assumptions C04_gen_dst.
+
+Theorem C04_gen_tzname : forall d dt, shape d -> gen_tzname d dt = tzname d (fst dt) (snd dt).
+Proof. exact gen_tzname_lemma. Qed.
+Print Assumptions C04_gen_tzname.
+
+Theorem C04_gen_datetime_to_timestamp : forall dt, gen_datetime_to_timestamp dt = fst dt.
+Proof. exact gen_datetime_to_timestamp_lemma. Qed.
+Print Assumptions C04_gen_datetime_to_timestamp.
+
+Theorem C04_gen_shape_of_decoded : forall d, good d = true -> shape d.
+Proof. exact good_shape. Qed.
+Print Assumptions C04_gen_shape_of_decoded.
+
+Theorem C04_gen_generic_fromutc : forall (tz : tzobj) (UO DST : Z -> bool -> Z),
+  (forall dt, tz_utcoffset tz dt = Ok (UO (fst dt) (snd dt))) ->
+  (forall dt, tz_dst tz dt = Ok (DST (fst dt) (snd dt))) ->
+  (forall dt, tz_is_ambiguous tz dt = Ok (g_is_ambiguous UO (fst dt))) ->
+  forall u, gen_generic_fromutc tz (u, false) = Ok (g_fromutc UO DST u).
+Proof. exact gen_generic_fromutc_lemma. Qed.
+Print Assumptions C04_gen_generic_fromutc.
+
+Theorem C04_gen_generic__fromutc : forall (tz : tzobj) (UO DST : Z -> bool -> Z),
+  (forall dt, tz_utcoffset tz dt = Ok (UO (fst dt) (snd dt))) ->
+  (forall dt, tz_dst tz dt = Ok (DST (fst dt) (snd dt))) ->
+  forall u, gen_generic__fromutc tz (u, false) = Ok (g_fromutc_wall UO DST u, false).
+Proof. exact gen_generic__fromutc_lemma. Qed.
+Print Assumptions C04_gen_generic__fromutc.
+
+Theorem C04_gen_generic_fold_status : forall (tz : tzobj) (UO DST : Z -> bool -> Z),
+  (forall dt, tz_utcoffset tz dt = Ok (UO (fst dt) (snd dt))) ->
+  (forall dt, tz_dst tz dt = Ok (DST (fst dt) (snd dt))) ->
+  (forall dt, tz_is_ambiguous tz dt = Ok (g_is_ambiguous UO (fst dt))) ->
+  forall u w f, gen_generic_fold_status tz (u, false) (w, f) = Ok (py_int_of_bool (g_fold_status UO DST u w)).
+Proof. exact gen_generic_fold_status_lemma. Qed.
+Print Assumptions C04_gen_generic_fold_status.
+
+(* hand-modelled fragments (struct decoding and the derivation loops of _read_tzfile, one-line methods, glue)
+   are unchanged since the hand model was validated against them *)
+From V Require Import tzfile.TzPinC04.
+Theorem C04_pinned_fragments_unchanged :
+  pinned_tz_tzfile__read_tzfile = true /\
+  pinned_tz_tzutc_utcoffset = true /\
+  pinned_tz_tzutc_dst = true /\
+  pinned_tz_tzutc_fromutc = true /\
+  pinned_tz_tzoffset___init__ = true /\
+  pinned_tz_tzoffset_utcoffset = true /\
+  pinned_tz_tzoffset_dst = true /\
+  pinned_tz_tzoffset_fromutc = true /\
+  pinned__common__tzinfo_is_ambiguous = true /\
+  pinned__common__tzinfo__fold = true.
+Proof. exact pins_C04_lemma. Qed.
+Print Assumptions C04_pinned_fragments_unchanged.
